@@ -23,7 +23,7 @@ pub const MAXV: usize = 10;
 pub fn clause_of(op: &Op) -> Vec<(usize, bool)> {
     op.a.iter()
         .filter(|l| **l != 0)
-        .map(|l| ((l.unsigned_abs() as usize - 1) % 64, *l > 0))
+        .map(|l| ((l.unsigned_abs() as usize - 1) % 8192, *l > 0))
         .collect()
 }
 
@@ -79,10 +79,11 @@ pub fn gen_clause(o: &mut Rng, nv: u64) -> [i64; 4] {
 /// written for the harness; shares nothing with rsdd)
 pub fn dpll_sat(clauses: &[Vec<(usize, bool)>], assumptions: &[(usize, bool)], nv: usize) -> bool {
     fn go(clauses: &[Vec<(usize, bool)>], asg: &mut Vec<Option<bool>>) -> bool {
-        // unit propagation to fixpoint
+        // unit propagation to fixpoint (units are assigned as soon as they are seen, so that a long
+        // implication ladder listed in order is swept in one pass)
         let mut trail: Vec<usize> = Vec::new();
         loop {
-            let mut unit: Option<(usize, bool)> = None;
+            let mut changed = false;
             for c in clauses {
                 let mut sat = false;
                 let mut free: Option<(usize, bool)> = None;
@@ -117,16 +118,14 @@ pub fn dpll_sat(clauses: &[Vec<(usize, bool)>], assumptions: &[(usize, bool)], n
                     return false;
                 }
                 if nfree == 1 {
-                    unit = free;
-                    break;
-                }
-            }
-            match unit {
-                Some((v, p)) => {
+                    let (v, p) = free.unwrap();
                     asg[v] = Some(p);
                     trail.push(v);
+                    changed = true;
                 }
-                None => break,
+            }
+            if !changed {
+                break;
             }
         }
         // branch
@@ -200,11 +199,52 @@ impl World for SatWorld {
         let wide = c.below(4) == 0;
         // one run in six is a large instance (11-60 variables, up to 300 clauses) judged by a DPLL oracle
         let big = c.below(6) == 0;
-        let nv = if big { 11 + c.below(50) } else if wide { 5 + c.below(6) } else { 1 + c.below(6) };
+        // one run in sixty: a long implication ladder x0 -> x1 -> ... (up to 6000 rungs) with a few side clauses
+        let chain = c.below(60) == 0;
+        let long_chain = c.below(3) == 0;
+        // one run in ten: few clauses over a handful of variables whose labels are far apart (differing by
+        // multiples of 32 / 64 / 128): small enough for every flag and hash to matter, wide enough for word boundaries
+        let sparse = !chain && c.below(10) == 0;
+        let nv = if sparse { 65 + c.below(140) } else if chain { 50 + c.below(if long_chain { 6000 } else { 600 }) } else if big { 11 + c.below(130) } else if wide { 5 + c.below(6) } else { 1 + c.below(6) };
         cfg.insert("nv".into(), nv as i64);
+        let big = big || chain || sparse;
+        let sparse_vars: Vec<u64> = if sparse {
+            let k = c.below(nv.min(64));
+            let mut u = vec![k, (k + 64) % nv, (k + 128) % nv, (k + 32) % nv, c.below(nv), c.below(nv)];
+            u.sort_unstable();
+            u.dedup();
+            u
+        } else {
+            Vec::new()
+        };
         cfg.insert("big".into(), big as i64);
+        cfg.insert("chain".into(), chain as i64);
         cfg.insert("arena".into(), 1);
-        let mut ops = if big {
+        let mut ops = if sparse {
+            let mut v = Vec::new();
+            for _ in 0..(1 + c.below(8)) {
+                let mut a = [0i64; 4];
+                let sz = 1 + o.below(4) as usize;
+                for slot in a.iter_mut().take(sz) {
+                    let x = *o.pick(&sparse_vars) as i64 + 1;
+                    *slot = if o.bool() { x } else { -x };
+                }
+                v.push(Op { c: 0, k: K_CLAUSE, a });
+            }
+            v
+        } else if chain {
+            let mut v = Vec::new();
+            let start = o.below(5) as i64;
+            for i in start..(nv as i64 - 1) {
+                // x_i -> x_{i+1}, in one of the two literal orders
+                let a = if o.bool() { [-(i + 1), i + 2, 0, 0] } else { [i + 2, -(i + 1), 0, 0] };
+                v.push(Op { c: 0, k: K_CLAUSE, a });
+            }
+            for _ in 0..o.below(12) {
+                v.push(Op { c: 0, k: K_CLAUSE, a: gen_clause(&mut o, nv) });
+            }
+            v
+        } else if big {
             let many = c.below(3) == 0;
             let ncl = 10 + c.below(if many { 290 } else { 70 });
             let mut v = Vec::new();
@@ -233,7 +273,15 @@ impl World for SatWorld {
             if o.below(100) < pop_w {
                 ops.push(Op { c: caller, k: K_POP, a: [0; 4] });
             } else {
-                ops.push(Op { c: caller, k: K_DECIDE, a: [o.below(if big { 64 } else { 12 }) as i64, o.below(2) as i64, 0, 0] });
+                // in a ladder, decisions near the bottom start the longest propagation
+                let dv = if sparse && o.below(6) != 0 {
+                    *o.pick(&sparse_vars)
+                } else if chain && o.below(2) == 0 {
+                    o.below(8)
+                } else {
+                    o.below(if big { 8192 } else { 12 })
+                };
+                ops.push(Op { c: caller, k: K_DECIDE, a: [dv as i64, o.below(2) as i64, 0, 0] });
             }
         }
         Plan {
@@ -249,7 +297,7 @@ impl World for SatWorld {
     fn execute(&self, plan: &Plan, ctx: &mut Ctx) -> R {
         ctx.cur_prop = "C09";
         let big = plan.get_or("big", 0) != 0;
-        let clauses_in: Vec<Vec<(usize, bool)>> = clauses_of_plan(&plan.ops, if big { 64 } else { MAXV });
+        let clauses_in: Vec<Vec<(usize, bool)>> = clauses_of_plan(&plan.ops, if big { 8192 } else { MAXV });
         let lits: Vec<Vec<Literal>> = clauses_in
             .iter()
             .map(|c| c.iter().map(|(v, p)| Literal::new(VarLabel::new(*v as u64), *p)).collect())
@@ -335,6 +383,7 @@ impl World for SatWorld {
         // all invariants of a reachable state
         let mut check_state = |ctx: &mut Ctx, s: &SATSolver, decisions: &[(usize, bool)], what: &str, entailed_before: &std::collections::BTreeSet<(usize, bool)>| -> R {
             let m = read_model(s);
+            let mut refutations = 0u32;
             // 1. soundness: every assigned value is entailed by CNF + decisions
             let consistent: Vec<u32> = models
                 .iter()
@@ -348,7 +397,11 @@ impl World for SatWorld {
                         ctx.check("C09", "sat-assigned-value-entailed", bad.is_none(), || {
                             format!("{what}: x{v} is assigned {b} but model {:#b} of the CNF extends the decisions {:?} with x{v}={}", bad.unwrap(), decisions, !b)
                         })?;
-                    } else if !entailed_before.contains(&(v, b)) {
+                    } else if !entailed_before.contains(&(v, b)) && {
+                        // ladders assign thousands of literals in one step: refute a sample of them
+                        refutations += 1;
+                        refutations <= 24 || v % 97 == 0
+                    } {
                         // entailment by refutation: CNF + decisions + (x_v = !b) must be unsatisfiable
                         let mut asm: Vec<(usize, bool)> = decisions.to_vec();
                         asm.push((v, !b));
@@ -531,7 +584,7 @@ impl World for SatWorld {
 
     fn render_op(&self, op: &Op) -> String {
         match op.k {
-            K_CLAUSE | K_CLAUSE_EXT => format!("{} {:?}", if op.k == K_CLAUSE { "clause" } else { "  ...more literals" }, clause_of(op).iter().map(|(v, p)| format!("{}x{}", if *p { "" } else { "!" }, v % MAXV)).collect::<Vec<_>>()),
+            K_CLAUSE | K_CLAUSE_EXT => format!("{} {:?}", if op.k == K_CLAUSE { "clause" } else { "  ...more literals" }, clause_of(op).iter().map(|(v, p)| format!("{}x{}", if *p { "" } else { "!" }, v)).collect::<Vec<_>>()),
             K_DECIDE => format!("c{}: decide(x{} = {})", op.c, op.a[0], op.a[1] & 1 == 1),
             _ => format!("c{}: pop", op.c),
         }
